@@ -161,8 +161,7 @@ class Ctx:
         d = self._tlcdir(module, extra_files)
         workers = workers or NCPU
         cmd = ["java", "-XX:+UseParallelGC", "-Xss" + xss]
-        if heap:
-            cmd.append("-Xmx" + heap)
+        cmd.append("-Xmx" + (heap or "6g"))    # several checks / agents may run at the same time
         if dfs:
             cmd.append("-Dtlc2.tool.queue.IStateQueue=StateDeque")
         cmd += list(jvm)
